@@ -71,6 +71,25 @@ class C03(E1Prop):
                     seq.insert(rng.randrange(2, len(seq)),
                                self.gen.next(w))
                 self.script = seq
+            elif len(dests) >= 3 and rng.random() < 0.3:
+                # story: integration branches built and green, then somebody
+                # pushes on one of them (not the last) and CI follows up on
+                # every tip before the robot looks again
+                d = rng.choice(dests[:-2])
+                seq = [
+                    {'op': 'open_pr', 'actor': 'alice', 'src':
+                     'bugfix/TEST-921', 'dst': d, 'kind': 'new'},
+                    {'op': 'eval', 'p': 0},
+                    {'op': 'ci_green_all', 'which': ['src', 'w']},
+                    {'op': 'wcommit', 'p': 0, 'vi': rng.choice([0, 0, 1]),
+                     'kind': 'plain'},
+                    {'op': 'ci_green_all', 'which': ['src', 'w']},
+                    {'op': 'eval', 'p': 0},
+                    {'op': 'deliver_all'},
+                ]
+                for o in seq:
+                    o['dt'] = rng.choice([1, 5, 30])
+                self.script = seq
             elif w.use_queue and rng.random() < 0.3:
                 # story: a queued PR whose queue builds end in any state of
                 # the host contract (STOPPED = cancelled build included),
